@@ -3,3 +3,6 @@ import Pmn.Model.Const
 import Pmn.Model.Grid
 import Pmn.Proofs.ListLemmas
 import Pmn.Props.C16
+import Pmn.Model.Fmt
+import Pmn.Proofs.FmtLemmas
+import Pmn.Props.C19
